@@ -63,21 +63,7 @@ func (sw *slidingWindow) cleaner() {
 		select {
 		case <-ticker.C:
 			sw.mutex.Lock()
-			newstartidx := 0
-			for idx, val := range sw.samples {
-				if val.expires.Before(time.Now()) {
-					newstartidx = idx + 1
-				} else {
-					break
-				}
-				if len(sw.samples) > newstartidx {
-					newsamples := make([]sample, len(sw.samples)-newstartidx)
-					copy(sw.samples[newstartidx:], newsamples)
-					sw.samples = newsamples
-				} else {
-					sw.samples = make([]sample, 0)
-				}
-			}
+			sw.dropExpired(time.Now())
 			sw.mutex.Unlock()
 
 		case <-sw.stopping:
@@ -93,10 +79,29 @@ func (sw *slidingWindow) Add(v int64) {
 	sw.samples = append(sw.samples, sample{v, time.Now().Add(sw.sampleLifetime)})
 }
 
-// Samples returns current samples from the sliding window
+// dropExpired removes the leading samples that have expired at time now.
+// Samples are appended in time order, so expired ones form a prefix.
+// The caller must hold the mutex.
+func (sw *slidingWindow) dropExpired(now time.Time) {
+	newstartidx := 0
+	for idx, val := range sw.samples {
+		if !val.expires.Before(now) {
+			break
+		}
+		newstartidx = idx + 1
+	}
+	if newstartidx > 0 {
+		newsamples := make([]sample, len(sw.samples)-newstartidx)
+		copy(newsamples, sw.samples[newstartidx:])
+		sw.samples = newsamples
+	}
+}
+
+// Samples returns current (not yet expired) samples from the sliding window
 func (sw *slidingWindow) Samples() []int64 {
 	sw.mutex.Lock()
 	defer sw.mutex.Unlock()
+	sw.dropExpired(time.Now())
 	samples := make([]int64, len(sw.samples))
 	for idx, sws := range sw.samples {
 		samples[idx] = sws.Value
